@@ -171,7 +171,8 @@ def run_inner(tape, ctx, item=None):
     data = payload
     if pred is not None and pred_stage == len(chain) - 1:
         row = pred[2]
-        if len(payload) % row:
+        if len(payload) % row and not (pred[0].get(b"Predictor") == 2 and len(payload) > row and t.coin(40, 100, "pred.partialrow")):
+            # (a TIFF-predicted payload may also end in an incomplete row; otherwise pad to whole rows)
             payload = payload + bytes(row - len(payload) % row)
         if not payload:
             payload = bytes(row)
